@@ -43,7 +43,7 @@ PROPS = {
         'assumptions': ['the hand-written Model/Cpu.lean mirrors the Rust handlers (checked by the correspondence run on every case); only its dispatch tables are regenerated from source'],
     },
     'C03': {
-        'lean': ['H8.Props.C03', 'H8.Props.C02I', 'H8.Props.C03L'],
+        'lean': ['H8.Props.C03', 'H8.Props.C02I', 'H8.Props.C03L', 'H8.Props.C03S'],
         'gen': ['consts', 'buscost', 'busmap', 'dispatch'],
         'runs': [{'mode': 'step', 'shards': 16}],
         'rule': 'single-step cases on the real Cpu (fetch+exec through the verif hook) from a tagged background memory (every byte = hash of its address) with the full register file, CCR, PC, cost and the complete delta of all five stores compared: per form of spec/isa.tbl every combination of the register fields (x2), all 256 initial CCR values, every value of immediate/bit/condition fields, seeded random instances with boundary-value register files and operand addresses at both ends of on-chip RAM, DRAM and the vector area; 8/16-bit operands swept as in C02 with both carry-in values for ROTXL/ROTXR. distinct non-trivial = distinct (form, first instruction bytes, resulting register file) triples of in-domain cases.',
